@@ -143,9 +143,12 @@ where
         // entered the loop in the first place, the stack would have been popped when the LOOP
         // operation was executed.
         if pop_stack {
-            // make sure the condition at the top of the stack is set to ZERO
-            #[cfg(debug_assertions)]
-            debug_assert_eq!(ZERO, self.stack.peek());
+            // make sure the condition at the top of the stack is set to ZERO; any other value
+            // (ONE would have kept us in the loop) is not a valid loop condition
+            let condition = self.stack.peek();
+            if condition != ZERO {
+                return Err(ExecutionError::NotBinaryValue(condition));
+            }
 
             self.execute_op(Operation::Drop)
         } else {
